@@ -116,6 +116,13 @@ def _tailify(stmts: List[ast.stmt]) -> List[ast.stmt]:
                 if body_ends and else_ends:
                     out.append(ast.If(test=s.test, body=_tailify(list(s.body)), orelse=_tailify(list(s.orelse))))
                     return out
+                # some paths through the branches return and others fall through to the rest of the block: the (short) rest is
+                # duplicated into both branches so that every return ends up in tail position
+                if len(rest) <= 3 and not any(isinstance(n, (ast.For, ast.While, ast.Try, ast.With)) for r_ in rest for n in ast.walk(r_)):
+                    b1 = list(s.body) if body_ends else list(s.body) + [copy.deepcopy(r_) for r_ in rest]
+                    b2 = list(s.orelse) if else_ends else list(s.orelse) + [copy.deepcopy(r_) for r_ in rest]
+                    out.append(ast.If(test=s.test, body=_tailify(b1), orelse=_tailify(b2)))
+                    return out
                 raise NotInlinable("return in a branch that does not end the function")
             out.append(ast.If(test=s.test, body=_tailify(list(s.body)), orelse=_tailify(list(s.orelse)) if s.orelse else []))
             return out
@@ -174,6 +181,7 @@ class ModuleInliner:
         self.classes: Dict[str, ast.ClassDef] = {s.name: s for s in tree.body if isinstance(s, ast.ClassDef)}
         self.counter = 0
         self.inlined = 0
+        self.hoisted = 0
         # rules also refer to helpers by a stem of their name ("_calc_stopping_criterion" ...)
         self.anchor_stems = [t for t in anchors if t.startswith("_") and len(t) >= 10]
 
@@ -472,11 +480,142 @@ class ModuleInliner:
             ast.fix_missing_locations(s)
         return out
 
+    # ------------------------------------------------------------------ hoisting of helper calls inside expressions
+    def _hoist(self, st: ast.stmt, caller, cls, nested, caller_names) -> Optional[List[ast.stmt]]:
+        """`f(a, h(x))` -> `t = h(x); f(a, t)` when nothing that could have an effect is evaluated before h(x) in the statement."""
+        if isinstance(st, (ast.Expr, ast.Return)) and st.value is not None:
+            field = "value"
+        elif isinstance(st, ast.Assign):
+            field = "value"
+        elif isinstance(st, ast.AugAssign) and isinstance(st.target, ast.Name):
+            field = "value"
+        elif isinstance(st, ast.If):
+            field = "test"
+        elif isinstance(st, ast.For) and not st.orelse:
+            field = "iter"
+        else:
+            return None
+        root = getattr(st, field)
+        if isinstance(root, ast.Call) and field == "value" and self._candidate(root, caller, cls, nested) is not None:
+            return None     # a whole-statement call: handled by _try_stmt
+        if isinstance(root, ast.Call) and field == "iter" and self._candidate(root, caller, cls, nested) is not None \
+                and self._is_generator(self._candidate(root, caller, cls, nested)):
+            return None
+        found = []
+
+        def scan(e) -> str:
+            """'pure' | 'found' | 'stop' in evaluation order"""
+            if isinstance(e, (ast.Name, ast.Constant)):
+                return "pure"
+            if isinstance(e, ast.Attribute):
+                return scan(e.value)
+            if isinstance(e, ast.Starred):
+                return scan(e.value)
+            if isinstance(e, ast.Subscript):
+                r = scan(e.value)
+                return r if r != "pure" else scan(e.slice)
+            if isinstance(e, ast.Slice):
+                for x in (e.lower, e.upper, e.step):
+                    if x is not None:
+                        r = scan(x)
+                        if r != "pure":
+                            return r
+                return "pure"
+            if isinstance(e, ast.UnaryOp):
+                return scan(e.operand)
+            if isinstance(e, ast.BinOp):
+                r = scan(e.left)
+                return r if r != "pure" else scan(e.right)
+            if isinstance(e, ast.Compare) and len(e.comparators) == 1:
+                r = scan(e.left)
+                return r if r != "pure" else scan(e.comparators[0])
+            if isinstance(e, (ast.Tuple, ast.List, ast.Set)):
+                for x in e.elts:
+                    r = scan(x)
+                    if r != "pure":
+                        return r
+                return "pure"
+            if isinstance(e, ast.JoinedStr):
+                for x in e.values:
+                    r = scan(x)
+                    if r != "pure":
+                        return r
+                return "pure"
+            if isinstance(e, ast.FormattedValue):
+                return scan(e.value)
+            if isinstance(e, ast.Call):
+                h = self._candidate(e, caller, cls, nested)
+                r = scan(e.func)
+                if r != "pure":
+                    return r
+                if h is not None and not self._is_generator(h):
+                    found.append(e)
+                    return "found"
+                for a in e.args:
+                    r = scan(a)
+                    if r != "pure":
+                        return r
+                for k in e.keywords:
+                    r = scan(k.value)
+                    if r != "pure":
+                        return r
+                return "stop"       # the call itself may have effects: nothing after it can be moved in front of it
+            if isinstance(e, (ast.BoolOp,)):
+                r = scan(e.values[0])
+                return r if r == "found" else "stop"
+            if isinstance(e, ast.IfExp):
+                r = scan(e.test)
+                return r if r == "found" else "stop"
+            return "stop"
+        if scan(root) != "found":
+            return None
+        call = found[0]
+        h = self._candidate(call, caller, cls, nested)
+        # name of the temporary: the helper's own result variable when the caller does not use that name
+        tails = [n for n in ast.walk(h) if isinstance(n, ast.Return)]
+        rn = {n.value.id for n in tails if isinstance(n.value, ast.Name)}
+        tmp = None
+        if tails and len(rn) == 1 and all(isinstance(n.value, ast.Name) for n in tails):
+            r = next(iter(rn))
+            if r not in caller_names and r not in {a.arg for a in h.args.args}:
+                tmp = r
+        if tmp is None:
+            self.counter += 1
+            tmp = "v_%s__%d" % (h.name.lstrip("_"), self.counter)
+
+        class Rep(ast.NodeTransformer):
+            def visit_Call(self, n):
+                if n is call:
+                    return ast.copy_location(ast.Name(id=tmp, ctx=ast.Load()), n)
+                return self.generic_visit(n)
+        pre = ast.Assign(targets=[ast.Name(id=tmp, ctx=ast.Store())], value=call)
+        ast.copy_location(pre, st)
+        setattr(st, field, Rep().visit(root))
+        ast.fix_missing_locations(pre)
+        ast.fix_missing_locations(st)
+        self.hoisted += 1
+        return [pre, st]
+
+    def _candidate(self, call: ast.Call, caller, cls, nested):
+        r = self._resolve(call, caller, cls, nested)
+        if r is None:
+            return None
+        h, self_expr, is_nested = r
+        if h is caller or not self._eligible(h, is_nested):
+            return None
+        if any(isinstance(a, ast.Starred) for a in call.args) or any(k.arg is None for k in call.keywords):
+            return None
+        return h
+
     def _block(self, stmts, caller, cls, nested, caller_names, depth):
         out = []
         for st in stmts:
             rep = None
             if depth > 0:
+                hp = self._hoist(st, caller, cls, nested, caller_names)
+                if hp is not None:
+                    out.extend(self._block(hp, caller, cls, nested, caller_names | _assigned_names(hp), depth))
+                    continue
                 rep = self._try_stmt(st, caller, cls, nested, caller_names)
                 if rep is None and isinstance(st, ast.For):
                     rep = self._try_for(st, caller, cls, nested, caller_names)
@@ -518,6 +657,34 @@ class ModuleInliner:
 
 
 # ------------------------------------------------------------------------------------------------
+class SplitTupleAssign(ast.NodeTransformer):
+    """`a, b = (X, Y)` -> `a = X; b = Y` when no target is read by a later right-hand side (so the simultaneous assignment and
+    the sequence agree); `a = a` is dropped."""
+
+    def __init__(self):
+        self.split = 0
+
+    def visit_Assign(self, n):
+        if len(n.targets) == 1 and isinstance(n.targets[0], ast.Tuple) and isinstance(n.value, ast.Tuple) \
+                and len(n.targets[0].elts) == len(n.value.elts) and all(isinstance(t, ast.Name) for t in n.targets[0].elts) \
+                and not any(isinstance(v, ast.Starred) for v in n.value.elts):
+            ts, vs = n.targets[0].elts, n.value.elts
+            for i, t in enumerate(ts):
+                for v in vs[i + 1:]:
+                    if any(isinstance(x, ast.Name) and x.id == t.id for x in ast.walk(v)):
+                        return n
+            out = []
+            for t, v in zip(ts, vs):
+                if isinstance(v, ast.Name) and v.id == t.id:
+                    continue
+                a = ast.Assign(targets=[ast.Name(id=t.id, ctx=ast.Store())], value=v)
+                ast.copy_location(a, n)
+                out.append(a)
+            self.split += 1
+            return out or [ast.copy_location(ast.Pass(), n)]
+        return n
+
+
 class LoopToComprehension:
     """`L = []` ... `for t in I: L.append(E)`  ->  `L = [E for t in I]`  (also nested loops and an `if` without else around
     the append).  Sound when L is not mentioned between its binding and the loop, nor inside the loop other than as the
@@ -629,6 +796,8 @@ def normalise_repo(src_repo: str, dst_repo: str, anchors: Set[str], package: str
                 mi = ModuleInliner(tree, anchors)
                 new = mi.run()
                 lc = LoopToComprehension()
+                if mi.inlined:
+                    new = ast.fix_missing_locations(SplitTupleAssign().visit(new))
                 if comprehensions:
                     new = lc.run(new)
                 if mi.inlined or lc.rewritten:
